@@ -59,6 +59,8 @@ struct Scn {
     handle_hold: Vec<u64>,
     steps: u64,
     random_order: bool,
+    /// flood: reports are only drained at the very end (a barrier may have thousands queued)
+    flood: bool,
 }
 
 #[derive(Clone, Debug)]
@@ -143,6 +145,25 @@ fn gen(seed: u64) -> Scn {
         handle_hold: (0..8).map(|_| r.pick_copy(&[0u64, 0, 1, 2, 5, 1000])).collect(),
         steps,
         random_order: r.coin(),
+        flood: false,
+    }
+}
+
+/// Thousands of triggers hit undrained Noop barriers: none may block, none may be lost.
+fn gen_flood(seed: u64) -> Scn {
+    let mut r = Rng::new(seed);
+    let n = r.range(1100, 2600) as usize;
+    let mk = |noop: bool, class: u8| TaskSpec { host: 0, calls: (0..n).map(|i| (if i % 500 == 499 { 1 } else { 0 }, class, noop)).collect() };
+    Scn {
+        tick_ms: 1,
+        rng_seed: r.next_u64(),
+        nhosts: 1,
+        tasks: vec![mk(false, 0), mk(true, 4)],
+        acts: vec![(0, Act::Create { k: 0, rx: Rx::Noop, classes: vec![0] }), (0, Act::Create { k: 1, rx: Rx::Noop, classes: vec![4] })],
+        handle_hold: vec![0],
+        steps: 12,
+        random_order: false,
+        flood: true,
     }
 }
 
@@ -169,7 +190,7 @@ fn scenario(s: Scn) -> ScenarioOut {
                     tokio::task::spawn_local(async move {
                         for (ci, (gap, class, noop)) in t.calls.iter().enumerate() {
                             tokio::time::sleep(Duration::from_millis(*gap)).await;
-                            let id = (ti as u64) * 1000 + ci as u64;
+                            let id = (ti as u64) * 1_000_000 + ci as u64;
                             log.push(Ev::Call { id, class: *class, noop: *noop, task: ti });
                             if *noop {
                                 trigger_noop(Tv { id, class: *class });
@@ -191,7 +212,7 @@ fn scenario(s: Scn) -> ScenarioOut {
     let mut panicked = false;
     for k in 0..=s.steps {
         // drain reports of every live barrier, in creation order
-        for (bk, bar) in barriers.iter_mut() {
+        for (bk, bar) in barriers.iter_mut().filter(|_| !s.flood) {
             loop {
                 let mut fut = Box::pin(bar.wait());
                 match util::poll_once(&mut fut) {
@@ -273,7 +294,7 @@ fn scenario(s: Scn) -> ScenarioOut {
     drop(sim);
     let evs = log.take();
     // ---- oracle ------------------------------------------------------------
-    let desc = json!({"scenario": format!("{s:?}")});
+    let desc = if s.flood { json!({"scenario": "flood", "calls_per_task": s.tasks[0].calls.len()}) } else { json!({"scenario": format!("{s:?}")}) };
     let mut live: Vec<(usize, Rx, Vec<u8>)> = vec![]; // creation order
     let mut expect: BTreeMap<u64, (usize, Rx)> = BTreeMap::new(); // id -> (barrier, reaction)
     let mut call_pos: BTreeMap<u64, (usize, u64)> = BTreeMap::new();
@@ -563,7 +584,9 @@ pub fn run(ctx: &Ctx) -> ! {
     }
     if ctx.replay.is_some() {
         let w = vcore::read_replay(ctx).expect("replay file");
-        let report = if let Some(seed) = w.get("corruption_seed").and_then(|x| x.as_u64()) {
+        let report = if let Some(seed) = w.get("flood_seed").and_then(|x| x.as_u64()) {
+            vcore::run_single(ctx, move |_| scenario(gen_flood(seed)))
+        } else if let Some(seed) = w.get("corruption_seed").and_then(|x| x.as_u64()) {
             vcore::run_single(ctx, move |_| corruption_scenario(seed))
         } else {
             let seed = w["scenario_seed"].as_u64().unwrap_or(0);
@@ -573,13 +596,23 @@ pub fn run(ctx: &Ctx) -> ! {
     }
     let n = ctx.pick(40_000u64, 600_000);
     let nfs = ctx.pick(2000u64, 20_000);
+    let nflood = ctx.pick(16u64, 300);
     let c2 = ctx.clone();
     let report = vcore::run_parallel(
         ctx,
-        n + nfs,
+        n + nfs + nflood,
         RunOpts { budget_s: ctx.pick(60.0, 600.0), scenario_timeout_s: 120.0 },
         move |idx| {
-            if idx < n {
+            if idx < nflood {
+                let seed = c2.scenario_seed("c20flood", idx);
+                let mut out = scenario(gen_flood(seed));
+                out.count("flood_scenarios", 1);
+                for v in out.violations.iter_mut() {
+                    v.witness["flood_seed"] = json!(seed);
+                    v.signature = format!("{}|flood", v.signature);
+                }
+                out
+            } else if idx < n {
                 let seed = c2.scenario_seed("c20", idx);
                 let mut out = scenario(gen(seed));
                 for v in out.violations.iter_mut() {
@@ -608,6 +641,6 @@ fn fin() -> Finish<'static> {
             "triggers at or after a Panic-barrier hit are outside the oracle (the host is gone)".into(),
         ],
         min_distinct: 100,
-        required_counters: vec!["reports_checked", "suspensions_observed", "resumes_observed", "calls_matching_several_barriers", "calls_matching_no_barrier", "panics_surfaced", "fs_corruption_reports", "calls_matching_noop"],
+        required_counters: vec!["reports_checked", "suspensions_observed", "resumes_observed", "calls_matching_several_barriers", "calls_matching_no_barrier", "panics_surfaced", "fs_corruption_reports", "calls_matching_noop", "flood_scenarios"],
     }
 }
